@@ -60,7 +60,7 @@ struct Operand
 
 struct Stats
 {
-    uint64_t trials = 0, calls = 0, alias = 0, noncanon_in = 0, noncanon_out = 0, regalias = 0, third_calls = 0;
+    uint64_t trials = 0, calls = 0, alias = 0, noncanon_in = 0, noncanon_out = 0, regalias = 0, third_calls = 0, exact_calls = 0, huge_calls = 0, huge_unavailable = 0;
     uint64_t stride_in[9] = {0}, stride_out[9] = {0}, idx_in[IK_N] = {0}, idx_out[IK_N] = {0};
     uint64_t shape_in[6] = {0}, shape_out[6] = {0};
 };
@@ -70,6 +70,9 @@ struct Ctx
     gen::G64 g;
     std::unique_ptr<arena::Sentinel> pool[3][4];
     std::string keysuffix; // "concurrent-callers:" for the contexts of the concurrent phase
+#if !defined(__SANITIZE_ADDRESS__)
+    arena::GuardBuf<uint64_t> exact_a{CLS[3], true, 8}, exact_b{CLS[3], true, 8}; // inputs placed so that they END at an unmapped page
+#endif
     Ctx()
     {
         for (int r = 0; r < 3; r++)
@@ -453,6 +456,119 @@ static void run_trial(Ctx &cx, const c17::Ov &ov, uint64_t tseed, vf::Report &re
             before.va.fe != x.va.fe || before.vb.fe != x.vb.fe)
             rep.violation(keystem + "stray-write", vf::J().raw("case", describe_trial(t, tseed)).u("pass", pass).str("what", "index list or broadcast argument modified").done());
     }
+    // (4) exact extents: every memory input is an array that ends with its last designated element (the next byte is an unmapped
+    //     page, or a malloc redzone under AddressSanitizer); a legal call - the values must still be right and nothing may fault
+    if (!t.alias && !reported_value && (is_mem(t.a.sh) || is_mem(t.b.sh)) && (tseed & 3) != 1)
+    {
+        c17::Call x;
+        uint64_t junk = sent[1] * 0x9E3779B97F4A7C15ULL + 7;
+        fill_call_operand(t.c, x.c, x.sc, x.ic, x.vc, x.rc, L, junk);
+        fill_call_operand(t.a, x.a, x.sa, x.ia, x.va, x.ra, L, junk + 1);
+        fill_call_operand(t.b, x.b, x.sb, x.ib, x.vb, x.rb, L, junk + 2);
+        uint64_t pre[8];
+        for (int k = 0; k < L; k++) pre[k] = t.is_copy ? (t.exp[k] ^ 0x4444444444444444ULL) : orc::add(t.exp[k], 5);
+        if (t.c.sh == c17::REG) for (int k = 0; k < L; k++) x.rc[k] = pre[k];
+        if (is_mem(t.c.sh)) for (int k = 0; k < L; k++) t.c.ar->cells[t.c.lead + t.c.pos[k]] = pre[k];
+        uint64_t *tofree[2] = {nullptr, nullptr};
+        for (int i = 1; i < 3; i++)
+        {
+            Operand &o = *ops[i];
+            if (!is_mem(o.sh)) continue;
+            size_t n = o.maxpos + 1;
+#if defined(__SANITIZE_ADDRESS__)
+            uint64_t *buf = (uint64_t *)malloc(n * 8);
+            tofree[i - 1] = buf;
+#else
+            arena::GuardBuf<uint64_t> &gb = i == 1 ? cx.exact_a : cx.exact_b;
+            uint64_t *buf = gb.p + gb.n - n;
+#endif
+            memcpy(buf, &o.ar->cells[o.lead], n * 8);
+            (i == 1 ? x.a : x.b) = reinterpret_cast<El *>(buf);
+            for (int k = L; k < 8; k++) (i == 1 ? x.ia : x.ib)[k] = 0x7FFFFFFFFFFFFF00ULL + k; // entries beyond the lanes: never to be used
+        }
+        ov.fn(x);
+        st.calls++;
+        st.exact_calls++;
+        for (int k = 0; k < L; k++)
+        {
+            uint64_t got = is_mem(t.c.sh) ? t.c.ar->cells[t.c.lead + t.c.pos[k]] : x.rc[k];
+            bool ok = t.is_copy ? got == t.exp[k] : orc::canon(got) == t.exp[k];
+            if (!ok)
+            {
+                rep.violation(keystem + "wrong-value:inputs-of-exact-extent", vf::J().raw("case", describe_trial(t, tseed)).u("lane", k).h("got", got).h("expected", t.exp[k]).done());
+                break;
+            }
+        }
+        for (uint64_t *q : tofree) free(q);
+    }
+    // (5) very large strides / index values (beyond 2^31 bytes and beyond 2^32 bytes between lanes): every strided or indexed memory
+    //     operand is moved into a sparse mapping (pages are committed only where a designated element lies); values only
+#if !defined(__SANITIZE_ADDRESS__)
+    if (!t.alias && !reported_value && (tseed & 7) == 2 && (t.c.sh == c17::STRIDE || t.c.sh == c17::INDEX || t.a.sh == c17::STRIDE || t.a.sh == c17::INDEX || t.b.sh == c17::STRIDE || t.b.sh == c17::INDEX))
+    {
+        static const uint64_t HUGE[] = {(1ULL << 28) + 1, (1ULL << 28) + 3, 306783379ULL, (1ULL << 29) - 1, (1ULL << 29) + 5, 613566757ULL, (1ULL << 30) + 7};
+        c17::Call x;
+        uint64_t junk = sent[0] * 0x9E3779B97F4A7C15ULL + 11;
+        fill_call_operand(t.c, x.c, x.sc, x.ic, x.vc, x.rc, L, junk);
+        fill_call_operand(t.a, x.a, x.sa, x.ia, x.va, x.ra, L, junk + 1);
+        fill_call_operand(t.b, x.b, x.sb, x.ib, x.vb, x.rb, L, junk + 2);
+        uint64_t pre[8];
+        for (int k = 0; k < L; k++) pre[k] = t.is_copy ? (t.exp[k] ^ 0x2222222222222222ULL) : orc::add(t.exp[k], 9);
+        if (t.c.sh == c17::REG) for (int k = 0; k < L; k++) x.rc[k] = pre[k];
+        if (is_mem(t.c.sh)) for (int k = 0; k < L; k++) t.c.ar->cells[t.c.lead + t.c.pos[k]] = pre[k];
+        struct Map { void *p = nullptr; size_t len = 0; uint64_t pos[8]; } mp[3];
+        bool ok_map = true;
+        for (int i = 0; i < 3 && ok_map; i++)
+        {
+            Operand &o = *ops[i];
+            if (o.sh != c17::STRIDE && o.sh != c17::INDEX) continue;
+            uint64_t S = HUGE[(tseed >> (3 + 3 * i)) % 7];
+            uint64_t mx = 0;
+            for (int k = 0; k < L; k++)
+            {
+                // strided: lane k at k*S; indexed: the lanes keep their relative order of the small placement, spread S apart
+                uint64_t rank = 0;
+                if (o.sh == c17::STRIDE) rank = (uint64_t)k;
+                else { for (int j = 0; j < L; j++) if (o.pos[j] < o.pos[k]) rank++; }
+                mp[i].pos[k] = rank * S + (o.sh == c17::INDEX ? o.pos[k] % 5 : 0);
+                // lanes that shared a cell before still share it
+                if (o.sh == c17::INDEX) for (int j = 0; j < k; j++) if (o.pos[j] == o.pos[k]) mp[i].pos[k] = mp[i].pos[j];
+                mx = std::max(mx, mp[i].pos[k]);
+            }
+            mp[i].len = (mx + 1) * 8;
+            mp[i].p = mmap(NULL, mp[i].len, PROT_READ | PROT_WRITE, MAP_PRIVATE | MAP_ANONYMOUS | MAP_NORESERVE, -1, 0);
+            if (mp[i].p == MAP_FAILED) { mp[i].p = nullptr; ok_map = false; break; }
+            uint64_t *base = (uint64_t *)mp[i].p;
+            for (int k = 0; k < L; k++) base[mp[i].pos[k]] = i == 0 ? pre[k] : o.val[k];
+            El *&ptr = i == 0 ? x.c : (i == 1 ? x.a : x.b);
+            uint64_t &st_ = i == 0 ? x.sc : (i == 1 ? x.sa : x.sb);
+            uint64_t *ix = i == 0 ? x.ic : (i == 1 ? x.ia : x.ib);
+            ptr = reinterpret_cast<El *>(base);
+            if (o.sh == c17::STRIDE) st_ = S;
+            else for (int k = 0; k < L; k++) ix[k] = mp[i].pos[k];
+        }
+        if (ok_map)
+        {
+            ov.fn(x);
+            st.calls++;
+            st.huge_calls++;
+            for (int k = 0; k < L; k++)
+            {
+                uint64_t got = (t.c.sh == c17::STRIDE || t.c.sh == c17::INDEX) ? ((uint64_t *)mp[0].p)[mp[0].pos[k]] : (is_mem(t.c.sh) ? t.c.ar->cells[t.c.lead + t.c.pos[k]] : x.rc[k]);
+                bool ok = t.is_copy ? got == t.exp[k] : orc::canon(got) == t.exp[k];
+                if (!ok)
+                {
+                    rep.violation(keystem + "wrong-value:very-large-stride-or-index", vf::J().raw("case", describe_trial(t, tseed)).u("lane", k).h("got", got).h("expected", t.exp[k])
+                                                                                       .u("stride_or_spread_c", mp[0].p ? mp[0].pos[L - 1] : 0).u("spread_a", mp[1].p ? mp[1].pos[L - 1] : 0).u("spread_b", mp[2].p ? mp[2].pos[L - 1] : 0).done());
+                    break;
+                }
+            }
+        }
+        else
+            st.huge_unavailable++;
+        for (auto &m : mp) if (m.p) munmap(m.p, m.len);
+    }
+#endif
     // (3) result must not depend on anything outside the designated operands
     if (memcmp(out[0], out[1], sizeof(uint64_t) * L))
         rep.violation(keystem + "stray-read",
@@ -479,6 +595,9 @@ static void flush_stats(const c17::Ov &ov, const Stats &st, vf::Report &rep)
     rep.cls("mode:result_aliases_input", st.alias);
     rep.cls("mode:result_register_is_input_register", st.regalias);
     rep.cls("mode:third_call_same_addresses_changed_contents", st.third_calls);
+    rep.cls("mode:inputs_of_exact_extent_before_unmapped_page_or_redzone", st.exact_calls);
+    if (st.huge_calls) rep.cls("mode:very_large_stride_or_index(sparse_mapping)", st.huge_calls);
+    if (st.huge_unavailable) rep.cls("mode:very_large_stride_unavailable(mmap_refused)", st.huge_unavailable);
     rep.cls("values:trials_with_noncanonical_input", st.noncanon_in);
     rep.cls("values:noncanonical_result_lanes", st.noncanon_out);
     for (int i = 0; i < 9; i++)
@@ -563,12 +682,11 @@ static void run_wrappers(const vf::Args &args, vf::Report &rep, const std::vecto
                 reps[t].prop = r.prop; reps[t].out = r.out; reps[t].fd = r.fd; reps[t].t0 = vf::Report::now();
                 reps[t].nt_cap = 64; reps[t].sample_cap = 0;
             }
-#pragma omp parallel num_threads(T)
-            {
-                int me = omp_get_thread_num() % T;
+            vf::team(T, [&](int me_) {
+                int me = me_;
                 Stats stl;
                 for (uint64_t tr = 0; tr < nconc; tr++) run_trial(*cxs[me], o, vf::mix64(base ^ 0xC0C0C0ULL, (uint64_t)me * 1000003 + tr), reps[me], stl);
-            }
+            });
             for (int t = 0; t < T; t++)
             {
                 r.evaluations += reps[t].evaluations;
